@@ -126,3 +126,22 @@ Definition dyn_step (subs : list bytes) (id : bytes) : list bytes * option bytes
 Definition srv_query (command arg : bytes) : bytes :=
   let prefix := skipn 4 command in
   prefix ++ (match rev command with 46 :: _ => [] | _ => [46] end) ++ arg.
+
+(* dynamicconfigsrv: the SRV records sorted by priority (insertion sort, stable, ascending), each turned into
+   the host entry "target:port" of the dynamically configured server *)
+Fixpoint dec_f (fuel : nat) (n : N) (acc : bytes) : bytes :=
+  match fuel with
+  | O => acc
+  | S f => let acc' := (48 + n mod 10) :: acc in if n / 10 =? 0 then acc' else dec_f f (n / 10) acc'
+  end.
+Definition decimal (n : N) : bytes := dec_f 20 n [].
+
+Fixpoint insert_prio (r : N * N * bytes) (l : list (N * N * bytes)) : list (N * N * bytes) :=
+  match l with
+  | [] => [r]
+  | x :: t => if fst (fst r) <? fst (fst x) then r :: l else x :: insert_prio r t
+  end.
+Definition sort_prio (l : list (N * N * bytes)) : list (N * N * bytes) := fold_left (fun acc r => insert_prio r acc) l [].
+(* records are (priority, port, target) *)
+Definition srv_hostports (recs : list (N * N * bytes)) : list bytes :=
+  map (fun r => snd r ++ [58] ++ decimal (snd (fst r))) (sort_prio recs).
